@@ -1103,6 +1103,7 @@ impl Wallet {
     ) {
         // need to reset balance and slips to avoid failing integrity from forks
         self.unspent_slips.clear();
+        self.staking_slips.clear();
         self.slips.clear();
         self.available_balance = 0;
 
@@ -1120,8 +1121,15 @@ impl Wallet {
             };
             let result = self.slips.insert(slip.utxoset_key, wallet_slip);
             if result.is_none() {
-                self.unspent_slips.insert(slip.utxoset_key);
-                self.available_balance += slip.amount;
+                // as in add_slip: staked funds go to staking_slips, Bound slips carry no
+                // spendable value
+                if let SlipType::BlockStake = slip.slip_type {
+                    self.staking_slips.insert(slip.utxoset_key);
+                } else if let SlipType::Bound = slip.slip_type {
+                } else {
+                    self.unspent_slips.insert(slip.utxoset_key);
+                    self.available_balance += slip.amount;
+                }
                 info!("slip key : {:?} with value : {:?} added to wallet from snapshot for address : {:?}",
                     slip.utxoset_key.to_hex(),
                     slip.amount,
